@@ -176,28 +176,32 @@ impl Pipeline {
         // Build a chain: operators push to each other, final one pushes to sink
         let mut current_chunk = chunk;
         let num_operators = self.operators.len();
+        // An operator that asks to stop (e.g. LIMIT reached) may still have emitted rows
+        // with that very push: they travel on down the chain, the stop is reported after.
+        let mut keep_going = true;
 
         for i in 0..num_operators {
             let is_last = i == num_operators - 1;
 
             if is_last {
                 // Last operator pushes to the real sink
-                return self.operators[i].push(current_chunk, &mut *self.sink);
+                let cont = self.operators[i].push(current_chunk, &mut *self.sink)?;
+                return Ok(keep_going && cont);
             }
 
             // Intermediate operators collect output
             let mut collector = ChunkCollector::new();
-            let continue_processing = self.operators[i].push(current_chunk, &mut collector)?;
+            keep_going &= self.operators[i].push(current_chunk, &mut collector)?;
 
-            if !continue_processing || collector.is_empty() {
-                return Ok(continue_processing);
+            if collector.is_empty() {
+                return Ok(keep_going);
             }
 
             // Merge collected chunks for next operator
             current_chunk = collector.into_single_chunk();
         }
 
-        Ok(true)
+        Ok(keep_going)
     }
 
     /// Finalize all operators in reverse order.
@@ -233,19 +237,21 @@ impl Pipeline {
     /// Push a chunk through operators starting at index.
     fn push_through_from(&mut self, chunk: DataChunk, start: usize) -> Result<bool, OperatorError> {
         let mut current_chunk = chunk;
+        let mut keep_going = true;
 
         for i in start..self.operators.len() {
             let is_last = i == self.operators.len() - 1;
 
             if is_last {
-                return self.operators[i].push(current_chunk, &mut *self.sink);
+                let cont = self.operators[i].push(current_chunk, &mut *self.sink)?;
+                return Ok(keep_going && cont);
             }
 
             let mut collector = ChunkCollector::new();
-            let continue_processing = self.operators[i].push(current_chunk, &mut collector)?;
+            keep_going &= self.operators[i].push(current_chunk, &mut collector)?;
 
-            if !continue_processing || collector.is_empty() {
-                return Ok(continue_processing);
+            if collector.is_empty() {
+                return Ok(keep_going);
             }
 
             current_chunk = collector.into_single_chunk();
